@@ -79,6 +79,13 @@ func (g *c12gen) tv(depth int, inSeq bool) (types.MalType, []types.MalType, []ty
 			t, v, r := g.tv(depth-1, true)
 			ts, vs, tr = append(ts, t), append(vs, v...), append(tr, r...)
 		}
+		// a vector is never an unquote form, even when it is spelt [unquote x] or [splice-unquote xs]: the symbol is data
+		if g.r.Intn(5) == 0 {
+			sy := S(g.r.Pick([]string{"unquote", "splice-unquote"}))
+			g.hist["vector-headed-by-the-symbol-unquote"]++
+			ts = append([]types.MalType{sy}, ts...)
+			vs = append([]types.MalType{sy}, vs...)
+		}
 		return types.Vector{Val: ts}, []types.MalType{types.Vector{Val: vs}}, tr
 	default: // map: returned literally, unquote inside is NOT evaluated
 		g.hist["map-literal"]++
